@@ -38,7 +38,7 @@ ZeroSegment == RepLit(0, SegLen)
 \* segments: its own when it succeeded, ZERO segments when it failed - also when a failed refinement handed
 \* back exactly w_e segments.  The RESULT of a failed item is only constrained to be an error (the order
 \* in which 14.11 tests oversize / bad exports / refinement error is reconstructed from memory: permissive;
-\* generated sizes stay far from the W_R boundary and failed refinements have empty outputs).
+\* failed refinements have empty outputs; the size test itself is exact: |o| + outputs <= W_R).
 WR == 49152
 RECURSIVE FailedFrom(_, _, _, _)
 FailedFrom(ws, outs, k, z) ==
